@@ -1,5 +1,5 @@
 """C08 -- an inode stays valid exactly as long as the client holds lookup references to it."""
-import os, sys, json, random
+import os, sys, json, random, shutil
 from concurrent.futures import ThreadPoolExecutor
 from vlib import *
 import ptcommon as P
@@ -86,7 +86,9 @@ def run_cases(bindir, cases, tag):
         rc, recs, out = P.run_history(bindir, '%s_%d' % (tag, i), P.script(c['mode'], c['no_open'], c['no_opendir'], c['lines']))
         return rc, recs, out
     with ThreadPoolExecutor(max_workers=NPROC) as ex:
-        return list(ex.map(one, enumerate(cases)))
+        res = list(ex.map(one, enumerate(cases)))
+    shutil.rmtree(os.path.join(SCRATCH, 'ptables', str(os.getpid())), ignore_errors=True)
+    return res
 
 def nlines(c):
     return sum(1 for l in c['lines'])
